@@ -1,6 +1,7 @@
 import Proofs.ArchBounds
 import Proofs.ArchCnn
 import Proofs.ArchNet
+import Proofs.ArchGenEq
 
 /-!
 # C03 — architecture mutations keep every network valid, bounded and rebuildable
@@ -11,6 +12,10 @@ composites (`Multi`, `Net` = encoder + latent + head with dotted method names). 
 every `# HARD LIMIT` guard with the strictness of the code, every argument clamp and every fallback;
 numpy draws are explicit arguments (`Args`).  All theorems quantify over *every* argument value and
 *every* finite sequence of methods (induction over the sequence), no size bound.
+
+Source translation: `harness/py2lean_arch.py` translates the `@mutation` methods of the tree under test
+into `Gen/ArchGen.lean`; `Proofs/ArchGenEq.lean` proves them equal to `step` / `drawsOK`; the last section
+restates the bounds / fallback / returned-dict theorems over the generated definitions.
 
 Not modelled (oracle of `harness/c03.py` only): finiteness of the forward pass; torch's own
 acceptance of a state dict (the model predicts the `{name: shape}` table, torch judges it).
@@ -493,5 +498,389 @@ example : ((net0.run {} [(["add_latent_node"], { n := 2 }), (["encoder", "add_no
                          (["head_net", "add_layer"], {})]).head.numInputs,
            (net0.run {} [(["add_latent_node"], { n := 2 }), (["encoder", "add_node"], { n := 1 }),
                          (["head_net", "add_layer"], {})]).head.hidden) = (6, 6, [2, 2]) := by decide
+
+open ArchGen
+set_option linter.unusedSimpArgs false
+
+/-! ## source translation (`Gen/ArchGen.lean` ← the `@mutation` methods of the tree under test)
+
+`harness/py2lean_arch.py` translates the source text of the architecture-mutation methods of
+EvolvableMLP, EvolvableCNN (+ the kernel-size helper `MutableKernelSizes`), EvolvableLSTM, EvolvableSimBa,
+EvolvableResNet and EvolvableNetwork (latent width) into `Gen/ArchGen.lean`; `Proofs/ArchGenEq.lean` proves
+each generated method equal to the model's `step` (next state, returned dict, method that took effect)
+and the draws it accepts equal to `Basic.drawsOK`.  The statements below mention the generated
+functions, so a change of the source that alters their meaning breaks them. -/
+section source_translation
+
+/-- every generated method equals the hand-written state machine, for all states with a non-empty
+    layer list, all arguments (explicit or drawn); the advertised kinds are the model's -/
+theorem C03_source_translation_equalities (p : Policy) (lo : Bool) (a : Args) (x : Flags) :
+    (∀ (m : MLP) (me : MlpMethod), m.hidden ≠ [] →
+      mlpCall me m.toGen a x =
+        if (Basic.mlp m).drawsOK p lo me.str a (me.flags x) then
+          some ((m.step me a).1.toGen, mlpRet m me a, (m.step me a).2.name) else none) ∧
+    (∀ (l : LSTM) (me : MlpMethod),
+      lstmCall me l.toGen a x =
+        if (Basic.lstm l).drawsOK p lo me.str a (me.flags x) then
+          some ((l.step me a).1.toGen, lstmRet l me a, (l.step me a).2.name) else none) ∧
+    (∀ (s : SimBa) (me : BlockMethod),
+      simbaCall me s.toGen a x =
+        if (Basic.simba s).drawsOK p lo me.simbaStr a (me.flags x) then
+          some ((s.step me a).1.toGen, simbaRet s me a, (s.step me a).2.name) else none) ∧
+    (∀ (r : ResNet) (me : BlockMethod),
+      resnetCall me r.toGen a x =
+        if (Basic.resnet r).drawsOK p lo me.resnetStr a (me.flags x) then
+          some ((r.step me a).1.toGen, resnetRet r me a, (r.step me a).2.name) else none) ∧
+    (∀ (l : Latent) (me : LatentMethod),
+      latentCall me l.toGen a x =
+        if latentDrawOK a x then
+          some ((l.step me a).1.toGen, amountRet "numb_new_nodes" a, (l.step me a).2.name) else none) ∧
+    (∀ (kcalc : List Int → List Int → List Int → List Int → List Int) (c : CNN) (me : CnnMethod)
+       (out : List Int) (mm : List String), p.clampKernel = true → c.WF → c.channels ≠ [] →
+       pySlice out (some (-2)) none = c.lastMap →
+       kcalc (ofNats c.channels) (ofNats c.kernels) (ofNats c.strides) [(c.inC : Int), (c.inH : Int), (c.inW : Int)]
+         = ofNats c.maxKernels →
+      cnnCall kcalc me (c.toGen out mm) a x =
+        if (Basic.cnn c).drawsOK p (decide ("add_layer" ∈ mm)) me.str a (me.flags x) then
+          some ((c.step p (decide ("add_layer" ∈ mm)) me a).1.toGen out mm,
+                cnnRet p (decide ("add_layer" ∈ mm)) c me a,
+                (c.step p (decide ("add_layer" ∈ mm)) me a).2.name) else none) :=
+  ⟨fun m me hne => gen_mlp_step_eq p lo m hne me a x, fun l me => gen_lstm_step_eq p lo l me a x,
+   fun s me => gen_simba_step_eq p lo s me a x, fun r me => gen_resnet_step_eq p lo r me a x,
+   fun l me => gen_latent_step_eq l me a x,
+   fun kcalc c me out mm hp hw hne hout hcalc => gen_cnn_step_eq kcalc p hp c hw hne out mm hout hcalc me a x⟩
+
+/-- the `@mutation(MutationType.X)` kinds read from the decorators are the layer / node method lists
+    the model advertises -/
+theorem C03_source_translation_method_kinds (m : MLP) (c : CNN) (l : LSTM) (s : SimBa) (r : ResNet) :
+    (kindNames EvolvableMLP.mutationTypes "LAYER" = (Basic.mlp m).layerMethods ∧
+     kindNames EvolvableMLP.mutationTypes "NODE" = (Basic.mlp m).nodeMethods) ∧
+    (kindNames EvolvableCNN.mutationTypes "LAYER" = (Basic.cnn c).layerMethods ∧
+     kindNames EvolvableCNN.mutationTypes "NODE" = (Basic.cnn c).nodeMethods) ∧
+    (kindNames EvolvableLSTM.mutationTypes "LAYER" = (Basic.lstm l).layerMethods ∧
+     kindNames EvolvableLSTM.mutationTypes "NODE" = (Basic.lstm l).nodeMethods) ∧
+    (kindNames EvolvableSimBa.mutationTypes "LAYER" = (Basic.simba s).layerMethods ∧
+     kindNames EvolvableSimBa.mutationTypes "NODE" = (Basic.simba s).nodeMethods) ∧
+    (kindNames EvolvableResNet.mutationTypes "LAYER" = (Basic.resnet r).layerMethods ∧
+     kindNames EvolvableResNet.mutationTypes "NODE" = (Basic.resnet r).nodeMethods) ∧
+    kindNames EvolvableNetwork.mutationTypes "NODE" = ["add_latent_node", "remove_latent_node"] :=
+  gen_mutation_types_eq m c l s r
+
+/-! ### chains of translated calls -/
+
+/-- a chain of calls of the translated methods; `none` = a call raised / a draw was impossible -/
+def mlpGenRun (s : EvolvableMLP.State) : List (MlpMethod × Args × Flags) → Option EvolvableMLP.State
+  | [] => some s
+  | o :: rest =>
+    match mlpCall o.1 s o.2.1 o.2.2 with
+    | none => none
+    | some r => mlpGenRun r.1 rest
+
+theorem mlpGenRun_eq (m : MLP) (hw : m.WF) (h : m.InBounds) (ops : List (MlpMethod × Args × Flags))
+    (s' : EvolvableMLP.State) (hr : mlpGenRun m.toGen ops = some s') :
+    s' = (m.run (ops.map (fun o => (o.1, o.2.1)))).toGen := by
+  induction ops generalizing m with
+  | nil => simp only [mlpGenRun, Option.some.injEq] at hr; simp only [MLP.run, List.map_nil, List.foldl_nil]; exact hr.symm
+  | cons o rest ih =>
+    simp only [mlpGenRun, gen_mlp_step_eq {} true m (MLP.hidden_ne_nil m hw h) o.1 o.2.1 o.2.2] at hr
+    split at hr
+    · cases hr
+    · rename_i r hs
+      split at hs
+      · cases hs
+        have := ih (m.step o.1 o.2.1).1 (MLP.step_wf m o.1 o.2.1 hw) (MLP.step_inBounds m o.1 o.2.1 hw h) hr
+        simpa only [MLP.run, List.map_cons, List.foldl_cons] using this
+      · cases hs
+
+/-- `C03_bounds_invariant_mlp` over the translated methods: whatever chain of add_layer / remove_layer /
+    add_node / remove_node the code executes (explicit arguments or draws, through the `add_node`
+    fallbacks), the fields it ends with satisfy `min_hidden_layers ≤ len(hidden_size) ≤ max_hidden_layers`
+    and `min_mlp_nodes ≤ width ≤ max_mlp_nodes` -/
+theorem C03_source_translation_bounds_mlp (m : MLP) (hw : m.WF) (h : m.InBounds)
+    (ops : List (MlpMethod × Args × Flags)) (s' : EvolvableMLP.State) (hr : mlpGenRun m.toGen ops = some s') :
+    mlpStateOK s' := by
+  rw [mlpGenRun_eq m hw h ops s' hr]
+  have := C03_bounds_invariant_mlp m (ops.map (fun o => (o.1, o.2.1))) hw h
+  exact MLP.toGen_ok _ this.2 this.1
+
+/-- one translated call of EvolvableCNN followed by `recreate_network`, which refreshes `cnn_output_size`
+    (a runtime attribute the methods read but never write) -/
+def cnnGenRun (kcalc : List Int → List Int → List Int → List Int → List Int) (recreate : EvolvableCNN.State → List Int)
+    (s : EvolvableCNN.State) : List (CnnMethod × Args × Flags) → Option EvolvableCNN.State
+  | [] => some s
+  | o :: rest =>
+    match cnnCall kcalc o.1 s o.2.1 o.2.2 with
+    | none => none
+    | some r => cnnGenRun kcalc recreate { r.1 with cnn_output_size := recreate r.1 } rest
+
+theorem cnnGenRun_eq (kcalc : List Int → List Int → List Int → List Int → List Int)
+    (recreate : EvolvableCNN.State → List Int) (mm : List String)
+    (hcalc : ∀ c : CNN, kcalc (ofNats c.channels) (ofNats c.kernels) (ofNats c.strides)
+      [(c.inC : Int), (c.inH : Int), (c.inW : Int)] = ofNats c.maxKernels)
+    (hrec : ∀ (c : CNN) (out : List Int), pySlice (recreate (c.toGen out mm)) (some (-2)) none = c.lastMap)
+    (c : CNN) (out : List Int) (hw : c.WF) (h : c.InBounds) (hout : pySlice out (some (-2)) none = c.lastMap)
+    (ops : List (CnnMethod × Args × Flags)) (s' : EvolvableCNN.State)
+    (hr : cnnGenRun kcalc recreate (c.toGen out mm) ops = some s') :
+    ∃ out', s' = (c.run {} (decide ("add_layer" ∈ mm)) (ops.map (fun o => (o.1, o.2.1)))).toGen out' mm := by
+  induction ops generalizing c out with
+  | nil =>
+    simp only [cnnGenRun, Option.some.injEq] at hr
+    exact ⟨out, by simp only [CNN.run, List.map_nil, List.foldl_nil]; exact hr.symm⟩
+  | cons o rest ih =>
+    simp only [cnnGenRun, gen_cnn_step_eq kcalc {} rfl c hw (CNN.channels_ne_nil c hw h) out mm hout (hcalc c)
+      o.1 o.2.1 o.2.2] at hr
+    split at hr
+    · cases hr
+    · rename_i r hs
+      split at hs
+      · cases hs
+        have hstep : ({ (c.step {} (decide ("add_layer" ∈ mm)) o.1 o.2.1).1.toGen out mm with
+              cnn_output_size := recreate ((c.step {} (decide ("add_layer" ∈ mm)) o.1 o.2.1).1.toGen out mm) } :
+              EvolvableCNN.State) =
+            (c.step {} (decide ("add_layer" ∈ mm)) o.1 o.2.1).1.toGen
+              (recreate ((c.step {} (decide ("add_layer" ∈ mm)) o.1 o.2.1).1.toGen out mm)) mm := rfl
+        rw [hstep] at hr
+        obtain ⟨out', ho⟩ := ih (c.step {} (decide ("add_layer" ∈ mm)) o.1 o.2.1).1 _
+          (CNN.step_wf _ _ c o.1 o.2.1 hw) (CNN.step_inBounds _ _ c o.1 o.2.1 hw h) (hrec _ _) hr
+        exact ⟨out', by simpa only [CNN.run, List.map_cons, List.foldl_cons] using ho⟩
+      · cases hs
+
+/-- `C03_bounds_invariant_cnn` over the translated methods: after any chain of add_layer / remove_layer /
+    change_kernel / add_channel / remove_channel (through change_kernel → add_layer → add_channel), the
+    number of layers and every channel count lie inside the declared bounds and the three per-layer
+    lists (channels, kernel sizes, strides) have equal lengths — provided the external
+    `calc_max_kernel_sizes` and the refreshed `cnn_output_size` agree with the feature-map arithmetic
+    (satisfiable: `refCalc_spec`, `refOut_spec`) -/
+theorem C03_source_translation_bounds_cnn (kcalc : List Int → List Int → List Int → List Int → List Int)
+    (recreate : EvolvableCNN.State → List Int) (mm : List String)
+    (hcalc : ∀ c : CNN, kcalc (ofNats c.channels) (ofNats c.kernels) (ofNats c.strides)
+      [(c.inC : Int), (c.inH : Int), (c.inW : Int)] = ofNats c.maxKernels)
+    (hrec : ∀ (c : CNN) (out : List Int), pySlice (recreate (c.toGen out mm)) (some (-2)) none = c.lastMap)
+    (c : CNN) (out : List Int) (hw : c.WF) (h : c.InBounds) (hout : pySlice out (some (-2)) none = c.lastMap)
+    (ops : List (CnnMethod × Args × Flags)) (s' : EvolvableCNN.State)
+    (hr : cnnGenRun kcalc recreate (c.toGen out mm) ops = some s') : cnnStateOK s' := by
+  obtain ⟨out', rfl⟩ := cnnGenRun_eq kcalc recreate mm hcalc hrec c out hw h hout ops s' hr
+  have := C03_bounds_invariant_cnn {} (decide ("add_layer" ∈ mm)) c (ops.map (fun o => (o.1, o.2.1))) hw h
+  exact CNN.toGen_ok _ _ _ this.2 this.1
+
+/-- the hypotheses of `C03_source_translation_bounds_cnn` are met by the model's own arithmetic -/
+example : (∀ c : CNN, refCalc (ofNats c.channels) (ofNats c.kernels) (ofNats c.strides)
+      [(c.inC : Int), (c.inH : Int), (c.inW : Int)] = ofNats c.maxKernels) ∧
+    (∀ (c : CNN) (out : List Int), pySlice (refOut (c.toGen out ["add_layer"])) (some (-2)) none = c.lastMap) :=
+  ⟨refCalc_spec, fun c out => refOut_spec c out _⟩
+
+/-- single calls of the scalar blocks (LSTM, SimBa, ResNet, latent width of EvolvableNetwork): a state
+    inside its bounds is taken to a state inside its bounds by every translated method, with every
+    argument — hence by every chain -/
+theorem C03_source_translation_bounds_scalar (a : Args) (x : Flags) :
+    (∀ (l : LSTM) (me : MlpMethod) r, l.InBounds → lstmCall me l.toGen a x = some r →
+        ∃ l' : LSTM, r.1 = l'.toGen ∧ l'.InBounds ∧ lstmStateOK r.1) ∧
+    (∀ (s : SimBa) (me : BlockMethod) r, s.InBounds → simbaCall me s.toGen a x = some r →
+        ∃ s' : SimBa, r.1 = s'.toGen ∧ s'.InBounds ∧ simbaStateOK r.1) ∧
+    (∀ (q : ResNet) (me : BlockMethod) r, q.InBounds → resnetCall me q.toGen a x = some r →
+        ∃ q' : ResNet, r.1 = q'.toGen ∧ q'.InBounds ∧ resnetStateOK r.1) ∧
+    (∀ (t : Latent) (me : LatentMethod) r, t.InBounds → latentCall me t.toGen a x = some r →
+        ∃ t' : Latent, r.1 = t'.toGen ∧ t'.InBounds ∧ latentStateOK r.1) := by
+  refine ⟨?_, ?_, ?_, ?_⟩
+  · intro l me r hb hr
+    rw [gen_lstm_step_eq {} true l me a x] at hr
+    split at hr
+    · cases hr
+      exact ⟨_, rfl, LSTM.step_inBounds l me a hb, LSTM.toGen_ok _ (LSTM.step_inBounds l me a hb)⟩
+    · cases hr
+  · intro s me r hb hr
+    rw [gen_simba_step_eq {} true s me a x] at hr
+    split at hr
+    · cases hr
+      exact ⟨_, rfl, SimBa.step_inBounds s me a hb, SimBa.toGen_ok _ (SimBa.step_inBounds s me a hb)⟩
+    · cases hr
+  · intro q me r hb hr
+    rw [gen_resnet_step_eq {} true q me a x] at hr
+    split at hr
+    · cases hr
+      exact ⟨_, rfl, ResNet.step_inBounds q me a hb, ResNet.toGen_ok _ (ResNet.step_inBounds q me a hb)⟩
+    · cases hr
+  · intro t me r hb hr
+    rw [gen_latent_step_eq t me a x] at hr
+    split at hr
+    · cases hr
+      exact ⟨_, rfl, Latent.step_inBounds t me a hb, Latent.toGen_ok _ (Latent.step_inBounds t me a hb)⟩
+    · cases hr
+
+/-! ### a refused mutation leaves the fields unchanged or falls back as documented; the dict names what was used -/
+
+/-- EvolvableMLP at its HARD LIMITs, on the translated methods.  `add_layer` with the maximum number of
+    layers IS `add_node` with the drawn arguments (same fields, same dict, `add_node` reported), below the
+    maximum it appends a copy of the last width and returns `None`; likewise `remove_layer` at the
+    minimum.  `add_node` / `remove_node` whose guard fails (`width + n > max_mlp_nodes`,
+    `width − n ≤ min_mlp_nodes`) return every field unchanged, and otherwise change exactly the width at the
+    clamped index by exactly `n`; in both cases the dict names that index and that `n`. -/
+theorem C03_source_translation_hard_limit_mlp (m : MLP) (hne : m.hidden ≠ []) (a : Args) (x : Flags)
+    (hd : nodeDrawOK [16, 32, 64] m.hidden.length true a x = true)
+    (i v : Nat) (hi : i = min a.layer (m.hidden.length - 1)) (hv : v = m.hidden.getD i 0)
+    (dict : Ret) (hdict : dict = [("hidden_layer", (i : Int)), ("numb_new_nodes", (a.n : Int))]) :
+    (¬ m.hidden.length < m.maxLayers →
+        EvolvableMLP.add_layer m.toGen a.layer a.n = EvolvableMLP.add_node m.toGen none none a.layer a.n) ∧
+    (m.hidden.length < m.maxLayers →
+        EvolvableMLP.add_layer m.toGen a.layer a.n =
+          some ({ m.toGen with hidden_size := m.toGen.hidden_size ++ [((m.hidden.getLastD 0 : Nat) : Int)] }, [], "add_layer")) ∧
+    (¬ m.hidden.length > m.minLayers →
+        EvolvableMLP.remove_layer m.toGen a.layer a.n = EvolvableMLP.add_node m.toGen none none a.layer a.n) ∧
+    (m.hidden.length > m.minLayers →
+        EvolvableMLP.remove_layer m.toGen a.layer a.n =
+          some ({ m.toGen with hidden_size := m.toGen.hidden_size.dropLast }, [], "remove_layer")) ∧
+    (¬ v + a.n ≤ m.maxNodes →
+        EvolvableMLP.add_node m.toGen (argOpt x.xl a.layer) (argOpt x.xn a.n) a.layer a.n = some (m.toGen, dict, "add_node")) ∧
+    (v + a.n ≤ m.maxNodes →
+        EvolvableMLP.add_node m.toGen (argOpt x.xl a.layer) (argOpt x.xn a.n) a.layer a.n =
+          some ({ m.toGen with hidden_size := m.toGen.hidden_size.set i ((v : Int) + (a.n : Int)) }, dict, "add_node")) ∧
+    (¬ v > m.minNodes + a.n →
+        EvolvableMLP.remove_node m.toGen (argOpt x.xl a.layer) (argOpt x.xn a.n) a.layer a.n =
+          some (m.toGen, dict, "remove_node")) ∧
+    (v > m.minNodes + a.n →
+        EvolvableMLP.remove_node m.toGen (argOpt x.xl a.layer) (argOpt x.xn a.n) a.layer a.n =
+          some ({ m.toGen with hidden_size := m.toGen.hidden_size.set i ((v : Int) - (a.n : Int)) }, dict, "remove_node")) := by
+  subst hi; subst hv; subst hdict
+  refine ⟨?_, ?_, ?_, ?_, ?_, ?_, ?_, ?_⟩
+  · intro h
+    rw [gen_mlp_add_layer_eq m hne a, gen_mlp_add_node_draws m hne a, if_neg h]
+  · intro h
+    rw [gen_mlp_add_layer_eq m hne a, if_pos h]
+    simp only [MLP.toGen, ofNats_append_one]
+  · intro h
+    rw [gen_mlp_remove_layer_eq m hne a, gen_mlp_add_node_draws m hne a, if_neg h]
+  · intro h
+    rw [gen_mlp_remove_layer_eq m hne a, if_pos h]
+    simp only [MLP.toGen, ofNats_dropLast]
+  · intro h
+    rw [gen_mlp_add_node_eq m hne a x, if_pos hd, MLP.addNode_toGen, if_neg h]; rfl
+  · intro h
+    rw [gen_mlp_add_node_eq m hne a x, if_pos hd, MLP.addNode_toGen, if_pos h]
+    simp only [MLP.toGen, ofNats_set, Int.natCast_add]; rfl
+  · intro h
+    rw [gen_mlp_remove_node_eq m hne a x, if_pos hd, MLP.removeNode_toGen, if_neg h]; rfl
+  · intro h
+    have hle : a.n ≤ m.hidden.getD (min a.layer (m.hidden.length - 1)) 0 := by omega
+    rw [gen_mlp_remove_node_eq m hne a x, if_pos hd, MLP.removeNode_toGen, if_pos h]
+    simp only [MLP.toGen, ofNats_set, Int.natCast_sub hle]; rfl
+
+/-- the same for the scalar blocks, stated through the model's `step` (whose guards are spelled out in
+    `C03_advertised_effect_scalar`): the translated call returns the model's next state, and when the
+    model's state does not move, neither do the fields — e.g. `add_latent_node` with
+    `latent_dim + n ≥ max_latent_dim` and ResNet's `add_channel` with `channel_size + n ≥ max_channel_size`
+    (strict guards), LSTM's `remove_node` with `hidden_size − n < min_hidden_size` -/
+theorem C03_source_translation_hard_limit_scalar (a : Args) (x : Flags) (hd : latentDrawOK a x = true)
+    (t : Latent) (q : ResNet) (l : LSTM)
+    (hq : nodeDrawOK [8, 16, 32] 0 false a x = true) (hl : nodeDrawOK [16, 32, 64] 0 false a x = true) :
+    (¬ t.dim + a.n < t.maxDim →
+      EvolvableNetwork.add_latent_node t.toGen (argOpt x.xn a.n) a.n =
+        some (t.toGen, [("numb_new_nodes", (a.n : Int))], "add_latent_node")) ∧
+    (t.dim + a.n < t.maxDim →
+      EvolvableNetwork.add_latent_node t.toGen (argOpt x.xn a.n) a.n =
+        some ({ t.toGen with latent_dim := (t.dim : Int) + (a.n : Int) }, [("numb_new_nodes", (a.n : Int))], "add_latent_node")) ∧
+    (¬ t.dim > t.minDim + a.n →
+      EvolvableNetwork.remove_latent_node t.toGen (argOpt x.xn a.n) a.n =
+        some (t.toGen, [("numb_new_nodes", (a.n : Int))], "remove_latent_node")) ∧
+    (¬ q.channel + a.n < q.maxCh →
+      EvolvableResNet.add_channel q.toGen (argOpt x.xn a.n) a.n =
+        some (q.toGen, [("numb_new_channels", (a.n : Int))], "add_channel")) ∧
+    (¬ l.hidden ≥ l.minHidden + a.n →
+      EvolvableLSTM.remove_node l.toGen (argOpt x.xn a.n) a.n =
+        some (l.toGen, [("numb_new_nodes", (a.n : Int))], "remove_node")) ∧
+    (¬ l.numLayers < l.maxLayers →
+      EvolvableLSTM.add_layer l.toGen a.n = EvolvableLSTM.add_node l.toGen none a.n) := by
+  have e1 := gen_latent_step_eq t .add a x
+  have e2 := gen_latent_step_eq t .remove a x
+  have e3 := gen_resnet_step_eq {} true q .addNode a x
+  have e4 := gen_lstm_step_eq {} true l .removeNode a x
+  simp only [latentCall, hd, if_true, Latent.step, Applied.name, amountRet] at e1 e2
+  simp only [resnetCall, Basic.drawsOK, BlockMethod.resnetStr, resnetMethod?, BlockMethod.flags, hq, if_true, ResNet.step,
+    ResNet.addChannel, resnetRet, Applied.name, amountRet] at e3
+  simp only [lstmCall, Basic.drawsOK, MlpMethod.str, mlpMethod?, MlpMethod.flags, hl, if_true, LSTM.step,
+    LSTM.removeNode, lstmRet, Applied.name, amountRet] at e4
+  refine ⟨?_, ?_, ?_, ?_, ?_, ?_⟩
+  · intro h; rw [e1, if_neg h]
+  · intro h; rw [e1, if_pos h]; simp only [Latent.toGen, Int.natCast_add]
+  · intro h; rw [e2, if_neg h]
+  · intro h; rw [e3, if_neg h]
+  · intro h; rw [e4, if_neg h]
+  · intro h
+    simp only [EvolvableLSTM.add_layer, LSTM.toGen, Int.ofNat_lt, h, if_false]
+
+/-- EvolvableCNN, on the translated methods: the dict of `add_channel` / `remove_channel` names the clamped
+    layer and the amount REALLY applied (`remove_channel` reports `0` when `min_channel_size` stops it and
+    then leaves every field unchanged); `remove_layer` at the minimum and `change_kernel` on a single-layer
+    network fall back as documented (`add_channel`; `add_layer` if the layer mutations are enabled) -/
+theorem C03_source_translation_hard_limit_cnn (kcalc : List Int → List Int → List Int → List Int → List Int)
+    (c : CNN) (hne : c.channels ≠ []) (out : List Int) (mm : List String) (a : Args) (x : Flags)
+    (hd : nodeDrawOK [8, 16, 32] c.channels.length true a x = true)
+    (i v : Nat) (hi : i = min a.layer (c.channels.length - 1)) (hv : v = c.channels.getD i 0) :
+    (¬ v ≥ c.minCh + a.n →
+      EvolvableCNN.remove_channel (c.toGen out mm) (argOpt x.xl a.layer) (argOpt x.xn a.n) a.layer a.n =
+        some (c.toGen out mm, [("hidden_layer", (i : Int)), ("numb_new_channels", 0)], "remove_channel")) ∧
+    (v ≥ c.minCh + a.n →
+      EvolvableCNN.remove_channel (c.toGen out mm) (argOpt x.xl a.layer) (argOpt x.xn a.n) a.layer a.n =
+        some ({ c.toGen out mm with channel_size := (c.toGen out mm).channel_size.set i ((v : Int) - (a.n : Int)) },
+              [("hidden_layer", (i : Int)), ("numb_new_channels", (a.n : Int))], "remove_channel")) ∧
+    (¬ v + a.n ≤ c.maxCh →
+      EvolvableCNN.add_channel (c.toGen out mm) (argOpt x.xl a.layer) (argOpt x.xn a.n) a.layer a.n =
+        some (c.toGen out mm, [("hidden_layer", (i : Int)), ("numb_new_channels", (a.n : Int))], "add_channel")) ∧
+    (¬ c.channels.length > c.minLayers →
+      EvolvableCNN.remove_layer (c.toGen out mm) a.layer a.n =
+        EvolvableCNN.add_channel (c.toGen out mm) none none a.layer a.n) ∧
+    (¬ c.channels.length > 1 →
+      EvolvableCNN.change_kernel kcalc (c.toGen out mm) (argOpt x.xk a.k) (argOpt x.xkl a.klayer)
+          a.klayer a.k a.k a.stride a.layer a.n a.layer a.n =
+        if "add_layer" ∈ mm then EvolvableCNN.add_layer kcalc (c.toGen out mm) a.k a.stride a.layer a.n
+        else EvolvableCNN.add_channel (c.toGen out mm) none none a.layer a.n) := by
+  subst hi; subst hv
+  refine ⟨?_, ?_, ?_, ?_, ?_⟩
+  · intro h
+    rw [gen_cnn_remove_channel_eq c hne out mm a x, if_pos hd, CNN.removeChannel_toGen, if_neg h]
+    simp only [removeChannelRet, if_neg h]
+  · intro h
+    have hle : a.n ≤ c.channels.getD (min a.layer (c.channels.length - 1)) 0 := by omega
+    rw [gen_cnn_remove_channel_eq c hne out mm a x, if_pos hd, CNN.removeChannel_toGen, if_pos h]
+    simp only [removeChannelRet, if_pos h, CNN.toGen, ofNats_set, Int.natCast_sub hle]
+  · intro h
+    rw [gen_cnn_add_channel_eq c hne out mm a x, if_pos hd, CNN.addChannel_toGen, if_neg h]; rfl
+  · intro h
+    rw [gen_cnn_remove_layer_eq c hne out mm a, gen_cnn_add_channel_draws c hne out mm a, if_neg h]
+  · intro h
+    have h' : ¬ ((c.channels.length : Int) > 1) := by omega
+    simp only [EvolvableCNN.change_kernel, CNN.toGen, ofNats_length, h', if_false]
+
+/-! ### non-vacuity: the translated methods on concrete states -/
+
+example : mlp0.hidden ≠ [] ∧ mlp0.WF ∧ mlp0.InBounds ∧ mlpStateOK mlp0.toGen :=
+  ⟨by decide, by decide, by decide, MLP.toGen_ok _ (by decide) (by decide)⟩
+-- add_layer below the maximum copies the last width; at the maximum it is add_node (draw: layer 1, +16
+-- nodes, refused by max_mlp_nodes = 4: fields unchanged, dict names the draw)
+example : EvolvableMLP.add_layer mlp0.toGen 0 16 = some ({ mlp0.toGen with hidden_size := [2, 2] }, [], "add_layer") ∧
+    EvolvableMLP.add_layer { mlp0.toGen with hidden_size := [2, 2] } 1 16 =
+      some ({ mlp0.toGen with hidden_size := [2, 2] }, [("hidden_layer", 1), ("numb_new_nodes", 16)], "add_node") := by
+  decide
+-- an explicit argument is clamped with `min` and used; a draw outside `[16, 32, 64]` is no draw of this code
+example : EvolvableMLP.add_node mlp0.toGen (some 7) (some 2) 0 0 =
+      some ({ mlp0.toGen with hidden_size := [4] }, [("hidden_layer", 0), ("numb_new_nodes", 2)], "add_node") ∧
+    EvolvableMLP.add_node mlp0.toGen none none 0 2 = none ∧
+    EvolvableMLP.remove_node { mlp0.toGen with hidden_size := [4] } (some 0) (some 2) 0 0 =
+      some ({ mlp0.toGen with hidden_size := [4] }, [("hidden_layer", 0), ("numb_new_nodes", 2)], "remove_node") := by
+  decide
+example : mlpGenRun mlp0.toGen [(.addNode, { n := 2 }, { xl := true, xn := true }), (.addLayer, { n := 16 }, {}),
+    (.removeNode, { layer := 1, n := 1 }, { xl := true, xn := true })] = some { mlp0.toGen with hidden_size := [4, 3] } := by
+  decide
+-- CNN: the model's arithmetic as the external pieces; change_kernel with an explicit oversized kernel is clamped
+example : cnnCall refCalc .changeKernel (cnnWitness.toGen (refOut (cnnWitness.toGen [] [])) ["add_layer"])
+      { k := 15, klayer := 1 } { xk := true, xkl := true } =
+    some ({ cnnWitness.toGen (refOut (cnnWitness.toGen [] [])) ["add_layer"] with mut_kernel_size := { sizes := [3, 3] } },
+          [("hidden_layer", 1), ("kernel_size", 3)], "change_kernel") := by
+  decide
+-- remove_channel stopped by min_channel_size reports 0
+example : EvolvableCNN.remove_channel (cnnWitness.toGen [] []) (some 0) (some 1) 0 0 =
+    some (cnnWitness.toGen [] [], [("hidden_layer", 0), ("numb_new_channels", 0)], "remove_channel") := by
+  decide
+
+end source_translation
 
 end Arch
